@@ -750,6 +750,12 @@ def _fresh_for_store(fn, v, params, depth=0):
         n = norm(v.func)
         if n in ('order_list', 'Block', 'gate.Gate', 'Gate', 'collections.defaultdict', 'Circuit'):
             return True, ''
+        if isinstance(v.func, ast.Name) and fn is not None:
+            # a local helper (nested def / lambda bound to a name) every return of which allocates
+            helpers = [n_ for n_ in ast.walk(fn) if isinstance(n_, ast.FunctionDef) and n_ is not fn and n_.name == v.func.id]
+            if helpers and all(r.value is not None and is_fresh_expr(r.value) for h_ in helpers for r in ast.walk(h_) if isinstance(r, ast.Return)) \
+                    and all(any(isinstance(r, ast.Return) for r in ast.walk(h_)) for h_ in helpers):
+                return True, ''
         if isinstance(v.func, ast.Attribute) and v.func.attr in ('pop', 'get', 'setdefault', 'copy') and root_name(v.func.value) == 'self':
             # an object taken out of the circuit's own state and put back elsewhere (moving a users list to a new key): nothing of the caller's
             return True, ''
